@@ -35,8 +35,10 @@ Soundness rules of the oracle
   * after a label / number failure the pool object is rebuilt from the reference so that
     one defect does not cascade; an object whose `units` list is stale (labels and numbers
     right) is kept as the repo produced it - what later ops do with it is the repo's
-    behaviour - and every later failure that involves it carries
-    `stale_units_operand: true` in its identity.
+    behaviour.  When an op with such an operand fails a clause, the op is repeated on
+    operands rebuilt from the reference (fresh lists): if the failure disappears the
+    identity carries `stale_units_operand: true` (a consequence of the earlier
+    units_list_consistent failure), otherwise `false` (an independent defect).
 """
 
 import math
